@@ -1,10 +1,12 @@
-//go:build verif
+//go:build verif && verif_c07wb
 
 package compose
 
 import "reflect"
 
-// Re-exports for the verification harness of property C07 (build tag verif only).
+// Re-exports for the verification harness of property C07: the white-box group of C07 (build tags verif &&
+// verif_c07wb). Only the C07 harness asks for the group, so a rename these re-exports do not follow cannot
+// stop the other properties' harnesses (built with -tags verif) from compiling.
 
 // VerifC07CheckAssignable is checkAssignable(input, arg): 0 = must not, 1 = must, 2 = may.
 func VerifC07CheckAssignable(input, arg reflect.Type) int {
